@@ -113,6 +113,71 @@ func runC10(c *Ctx) {
 			c.ArgIs(cl, "state is the merger's closed value", c.CallsD(cl, "call(oneState)(*)"), 1, 0, "*.CloseValue()#0")
 		}
 	}
+	// R10.3b the mergers' map is only touched through atomic operations -----------------------------
+	c.Rule("R10.3b", "WhoMayCall")
+	nmap := 0
+	for _, s := range c.CallsInFuncs("(*util.ShardedMap[*]).*", "isaac/block.(*DefaultStatesMerger).") {
+		cc := callCommon(s.In)
+		if !P("sm.stvmmap").Match(c.D(cc.Args[0])) {
+			continue
+		}
+		nmap++
+		name := CalleeFullName(cc)
+		name = name[strings.LastIndex(name, ".")+1:]
+		ok := false
+		switch name {
+		case "GetOrCreate", "Value", "Traverse", "Len", "Close":
+			ok = true
+		}
+		c.Report(s.Fn, "merger map accessed only through atomic create-or-merge / read-only operations: "+name, c.InstrPos(s.In), ok,
+			"a separate lookup followed by SetValue/Set loses a concurrently created merger")
+	}
+	c.Floor(nil, "accesses of DefaultStatesMerger.stvmmap", nmap, 5)
+	if fn := c.Need("isaac/block.(*DefaultStatesMerger).setState"); fn != nil {
+		g := c.CallsD(fn, "sm.stvmmap.GetOrCreate(*)")
+		c.ArgIs(fn, "merger looked up / created under the state's key", g, 1, 0, "stvm.Key()")
+		if cl := c.ClosureWithCall(fn, "i.Merge(*)"); cl != nil {
+			c.ArgIs(cl, "merged value is the state merge value's value", c.CallsD(cl, "i.Merge(*)"), 1, 0, "stvm.Value()")
+			c.ArgIs(cl, "merged under the operation's fact hash", c.CallsD(cl, "i.Merge(*)"), 1, 1, "operation")
+		}
+		if cl := c.ClosureWithCall(fn, "stvm.Merger(*)"); cl != nil {
+			c.ArgIs(cl, "new merger created for the block height", c.CallsD(cl, "stvm.Merger(*)"), 1, 0, "sm.height")
+			c.Exists(cl, "previous state looked up under the same key", c.CallsD(cl, "call(sm.getStateFunc)(stvm.Key())"), 1)
+		}
+	}
+	// R10.6 manifest assembly -------------------------------------------------------------------------
+	c.Rule("R10.6", "Dependence")
+	if fn := c.Need("isaac/block.(*Writer).Manifest"); fn != nil {
+		nm := c.CallsTo(fn, "isaac.NewManifest")
+		c.ArgIs(fn, "manifest height is the proposal's height", nm, 1, 0, "w.proposal.Point().Height()")
+		c.ArgIs(fn, "manifest previous is the previous manifest's hash", nm, 1, 1, "φ(nil|previous.Hash())")
+		c.ArgIs(fn, "manifest proposal is the proposal fact's hash", nm, 1, 2, "w.proposal.Fact().Hash()")
+		c.ArgIs(fn, "manifest operations root is the operations tree's root", nm, 1, 3, "φ(nil|w.opstreeg.Tree()#0.Root())")
+		c.ArgIs(fn, "manifest states root is the states tree's root", nm, 1, 4, "φ(nil|w.ststree.Root())")
+		c.ArgIs(fn, "manifest suffrage hash is the caught suffrage state's (or the previous one)", nm, 1, 5, "var:suffrage")
+		c.MP(fn, "manifest built only after the states were closed", nm, 1, GOk("w.closeStateValues(ctx, *)"))
+		c.Held(fn, nil, "manifest built under the writer lock", nm, 1, "&w.l", LW)
+		sts := c.StoresD(fn, "&var:suffrage")
+		c.StoredIs(fn, "suffrage hash defaults to the previous manifest's", sts, 1, "previous.Suffrage()")
+		if cl := c.ClosureWithStore(fn, "&var:suffrage"); cl != nil {
+			st := c.StoresD(cl, "&var:suffrage")
+			c.StoredIs(cl, "suffrage hash caught from a closed state", st, 1, "st.Hash()")
+			c.MP(cl, "caught only from the state stored under the suffrage state key", st, 1, GCmp("st.Key()", "==", "isaac.SuffrageStateKey"))
+		}
+	}
+	if fn := c.Need("isaac/block.(*Writer).statesMergerClose"); fn != nil {
+		if cl := c.ClosureWithCall(fn, "call(catchState)(*)"); cl != nil {
+			add := c.CallsD(cl, "var:tg.Add(*)")
+			c.ArgIs(cl, "state enters the tree at the index the merger assigned", add, 1, 0, "index")
+			c.ArgIs(cl, "tree node key is the state's hash", add, 1, 1, "fixedtree.NewBaseNode(st.Hash().String())")
+			c.ArgIs(cl, "every closed state is shown to the catcher", c.CallsD(cl, "call(catchState)(*)"), 1, 0, "st")
+		}
+	}
+	if fn := c.Need("isaac/block.(*Writer).SetProcessResult"); fn != nil {
+		add := c.CallsD(fn, "w.opstreeg.Add(*)")
+		c.ArgIs(fn, "operation enters the tree at its own index", add, 1, 0, "index")
+		c.MP(fn, "success: operation node added", c.SuccessReturns(fn), 1, GOk("w.opstreeg.Add(*)"))
+	}
 	// R10.4 --------------------------------------------------------------------------------------
 	c.Rule("R10.4", "SortedBeforeUse")
 	type mslice struct{ sorted bool }
